@@ -120,9 +120,9 @@ type leafInfo struct {
 type shape struct {
 	tag      string
 	nBlocks  int
-	first    uint64   // number of the first L1 block
-	finMode  string   // at | last | beyond | before | between | far
-	hashMode string   // ok | fork | legacy | fork_other
+	first    uint64 // number of the first L1 block
+	finMode  string // at | last | beyond | before | between | far
+	hashMode string // ok | fork | legacy | fork_other
 	finErr   bool
 	hdrErr   bool
 	lateInfo bool     // no info leaf in the first block(s)
@@ -445,6 +445,16 @@ func generate(f *hlib.Flags, dir string) []In {
 			in.Tag += "+retry_of_inerror"
 		}
 		ins = append(ins, in)
+		// every case whose finalized block is at or beyond the second L1 block, once more after a warm-up attempt made while the node
+		// reported the FIRST L1 block as finalized: with the observed attempt as scripted, and with its finalized query failing
+		if !in.FinErr && !in.HdrErr && len(in.L1) >= 2 && in.Fin >= in.L1[1].Num && in.PrevErr == nil {
+			w0 := in.L1[0].Num
+			a := in
+			a.Warm, a.Tag = &w0, in.Tag+"+warm"
+			b := a
+			b.FinErr, b.Tag = true, in.Tag+"+warm_fin_rpc_error"
+			ins = append(ins, a, b)
+		}
 	}
 	return ins
 }
